@@ -60,7 +60,8 @@ OTHER_ITEMS = ["union X { a: u8, b: u16 }", "fn f() {}", "trait T {}", "mod m {}
                "enum X { A = 1, B = isize::MAX }", "#[default(match 0u8 { _ => X(1) } + X(2))] struct X(u8);", "#[default(if true { 1 } else { 2 } == 1)] enum X { A, B }", "#[default({ X(1) } + X(2))] struct X(u8);",
                "struct X(#[partial_eq(key = len.$())] String);", "struct X(#[ord(key = ::$.len())] String);", "struct X(#[eq(key = S { $ })] String);", "struct X(#[hash(key = Default.$)] String);", "struct X(#[partial_eq(by = $)] u8);", "#[default(let x = 1)] struct X(u8);",
                "struct X(dyn Tr + Send);", "struct X<'a>(dyn Tr + Send + 'a);", "struct X { a: u32, t: dyn Tr + Send }", "struct X(impl Tr + Send);", "struct X(dyn Tr);",
-               "impl Add<dyn A + B> for X { type Output = X; fn add(self, r: dyn A + B) -> X { self } }", "impl Sub<i32> for dyn A + Send { type Output = i32; fn sub(self, r: i32) -> i32 { r } }", "impl Add<> for X { type Output = X; fn add(self, r: X) -> X { self } }", "impl core::ops::Sub<> for &X { type Output = X; fn sub(self, r: &X) -> X { X } }", "impl Add<'a> for X { type Output = X; fn add(self, r: X) -> X { self } }", "impl Add<Output = X> for X { type Output = X; fn add(self, r: X) -> X { self } }", "struct X<const N: usize>([u8; N]);", "pub(in self) struct X;", "struct X where;", "struct X<T,>(T,);", "macro_rules! m { () => {} }", "struct X(#[cfg(any())] u8, u16);"]
+               "impl Add<dyn A + B> for X { type Output = X; fn add(self, r: dyn A + B) -> X { self } }", "impl Sub<i32> for dyn A + Send { type Output = i32; fn sub(self, r: i32) -> i32 { r } }", "impl Add<> for X { type Output = X; fn add(self, r: X) -> X { self } }", "impl Add for X { #![allow(clippy::suspicious_arithmetic_impl)] type Output = X; fn add(self, r: X) -> X { self } }",
+               "#[allow(unused)] impl SubAssign<&X> for X { #![deny(unused)] #![doc = \"d\"] fn sub_assign(&mut self, r: &X) {} }", "#[expect(unused)] #[forbid(unsafe_code)] impl Shl<u8> for &X { #![warn(missing_docs)] type Output = X; fn shl(self, r: u8) -> X { X } }", "impl core::ops::Sub<> for &X { type Output = X; fn sub(self, r: &X) -> X { X } }", "impl Add<'a> for X { type Output = X; fn add(self, r: X) -> X { self } }", "impl Add<Output = X> for X { type Output = X; fn add(self, r: X) -> X { self } }", "struct X<const N: usize>([u8; N]);", "pub(in self) struct X;", "struct X where;", "struct X<T,>(T,);", "macro_rules! m { () => {} }", "struct X(#[cfg(any())] u8, u16);"]
 
 
 def impl_items(rng, n):
@@ -78,7 +79,7 @@ def impl_items(rng, n):
         op = rng.choice(OPS)
         f = {"Add": "add", "Sub": "sub", "Shl": "shl", "BitXor": "bitxor", "AddAssign": "add_assign", "ShlAssign": "shl_assign", "Neg": "neg", "Not": "not", "Clone": "clone", "Deref": "deref", "Index": "index"}[op]
         rhs = "" if op in ("Neg", "Not", "Clone", "Deref") and rng.random() < 0.8 else rng.choice(RHS)
-        body = rng.choice(OUT) + " " + rng.choice(["fn %s(self, rhs: Self) -> Self { self }" % f, "fn %s(&mut self, rhs: Self) {}" % f, "fn %s(self) -> Self::Output { self }" % f, "", "fn %s(self, _: &Self) -> Self::Output { todo!() }" % f])
+        body = rng.choice(["", "", "#![allow(unused)] ", "#![doc = \"inner\"] #![deny(clippy::all)] ", "#![cfg_attr(all(), allow(dead_code))] "]) + rng.choice(OUT) + " " + rng.choice(["fn %s(self, rhs: Self) -> Self { self }" % f, "fn %s(&mut self, rhs: Self) {}" % f, "fn %s(self) -> Self::Output { self }" % f, "", "fn %s(self, _: &Self) -> Self::Output { todo!() }" % f])
         item = "%simpl%s %s%s%s for %s%s { %s }" % (rng.choice(["", "", "unsafe ", "#[doc = \"x\"] ", "default "]), rng.choice(GEN), rng.choice(["", "", "core::ops::", "::core::ops::", "!"]), op, rhs, rng.choice(SELF_TY), rng.choice(WH), body)
         out.append((rng.choice(ARGS), item))
     return out
